@@ -231,6 +231,12 @@ def build_frame(L, route, send, req, frag=True):
         if kind in ("raw", "none"):
             raw_send(L, c, request, route.get("segs") or [], kind == "raw")
         else:
+            if kind == "default" and "dflt" in route:
+                # the documented per-class / per-instance configuration of the default route path
+                if route.get("level") == "class":
+                    c.__class__ = type("Cap", (c.__class__,), {"route_path_default": route["dflt"]})
+                else:
+                    c.route_path_default = route["dflt"]
             if kind == "default":
                 rp = None
             elif kind == "falsy":
@@ -418,6 +424,10 @@ def spelled_route(route, send):
         return route.get("segs") or []
     if k == "falsy":
         return "absent" if send == "E" else []
+    if k == "default" and "dflt" in route:
+        if not route["dflt"]:
+            return "absent" if send == "E" else []
+        return route["spelled"] if route.get("spelled") is not None and send != "E" else None
     if k == "default":
         return [[1, 0]] if send != "E" else None
     if k in ("text", "list"):
@@ -624,6 +634,13 @@ def srv_routes():
     R.append(({"kind": "raw", "segs": []}, "D"))
     R.append(({"kind": "default"}, "D"))
     R.append(({"kind": "default"}, "E"))
+    # a connector whose route_path_default was configured; operations name no route path
+    R.append(({"kind": "default", "dflt": "1/5", "level": "class", "spelled": [[1, 5]]}, "D"))
+    R.append(({"kind": "default", "dflt": "2/0", "level": "instance", "spelled": [[2, 0]]}, "D"))
+    R.append(({"kind": "default", "dflt": "1/0/2/1.2.3.4", "level": "instance", "spelled": [[1, 0], [2, "1.2.3.4"]]}, "D"))
+    R.append(({"kind": "default", "dflt": '[{"port":3,"link":7}]', "level": "class", "spelled": [[3, 7]]}, "D"))
+    R.append(({"kind": "default", "dflt": "", "level": "class"}, "D"))
+    R.append(({"kind": "default", "dflt": "", "level": "instance"}, "E"))
     for segs in ([[1, 0]], [[1, 1]], [[2, 0]], [[1, "1.2.3.4"]], [[1, "1.2.3.5"]], [[15, 255]], [[1, 0], [2, "1.2.3.4"]],
                  [[1, 0], [2, 5]], [[1, 0], [2, "1.2.3.5"]], [[2, 5], [1, 0]], [[1, 0], [2, "1.2.3.4"], [3, 1]],
                  [[3, 7]], [[2, "10.0.0.1"]], [[16, 255]], [[1, 0], [1, 0]]):
@@ -865,6 +882,9 @@ class C15(Suite):
                 raw.insert(rng.randint(0, len(raw)), ["o", rng.randrange(len(OTHER_KINDS)), rng.choice([1, 6, 255])])
             return {"kind": "raw", "segs": raw}, "D"
         if r < 0.6:
+            if rng.random() < 0.2:
+                return {"kind": "default", "dflt": spell_slash(segs), "level": rng.choice(["class", "instance"]),
+                        "spelled": segs}, "D"
             return {"kind": "text", "text": spell_slash(segs), "spelled": segs}, rng.choice(["D"] * 12 + ["O1", "O2", "O3"])
         if r < 0.85:
             form = rng.choice(["dicts", "strs", "pairs", "mixed", "ws", "swapped", "strnum"])
@@ -1013,7 +1033,9 @@ class C15(Suite):
     def line_route(route, send):
         k = route["kind"]
         r = {"none": "N", "default": "D", "falsy": "F"}.get(k)
-        if k == "raw":
+        if k == "default" and "dflt" in route:
+            r = "C:" + hx(route["dflt"])
+        elif k == "raw":
             r = "R:" + fmt_segs(route.get("segs") or [])
         elif k == "text":
             r = "T:" + hx(route["text"]) if route["text"] else "F"
